@@ -579,7 +579,8 @@ class CsvReader:
             int(data[self.__idx_bin_height]),
             {o: v.parse_row(data) for o, v in self.__objectives},
             {o: str_to_num(data[v]) for o, v in self.__objective_bounds},
-            {o: int(data[v]) for o, v in self.__bin_bounds},
+            {o: int(data[v]) for o, v in self.__bin_bounds
+             if str.__len__(data[v]) > 0},
         )
 
 
